@@ -328,18 +328,34 @@ def task_session(chunk):
             v.append(('C14|open-session|cfg%d|the OPEN handed to the application differs from the OPEN received: %s' % (ci, ','.join(d)),
                       {'caps': labels, 'packaging': pk, 'cfg': cfg, 'hex': body.hex(), 'got': got[0], 'want': want}))
             continue
+        # what the session makes of it: 4-octet AS numbers iff both sides announced them (RFC 6793 4.1), wherever in the list the
+        # capability stands
+        p = w.fsm.protocol
+        t0 = w.sim.connectors[0].transport
+        we_announced = any(wire.cap_as4(cfg.get('local_as', 65001)) in d for _, d in t0.writes)      # read off the OPEN the agent wrote
+        expect_as4 = bool(want_caps.get('four_bytes_as')) and we_announced
+        if p is not None and bool(p.fourbytesas) != expect_as4:
+            v.append(('C14|open-session|cfg%d|AS-number width of the session does not follow from the two OPENs' % ci,
+                      {'caps': labels, 'packaging': pk, 'cfg': cfg, 'hex': body.hex(), 'four_octet_mode': bool(p.fourbytesas), 'both_announced': expect_as4}))
+            continue
         # a second OPEN on the same connection (OpenConfirm): whatever the FSM does with it, nothing of it may be merged into what
-        # was decoded from the first - neither in a second report nor in the remote capabilities the agent keeps
+        # was decoded from the first - neither in a second report nor in the remote capabilities the agent keeps, nor in the
+        # AS-number width (the second OPEN says the opposite of the first about 4-octet AS numbers where it can)
+        flip_as4 = (asn > 65535) or not want_caps.get('four_bytes_as')
         from oslo_config import cfg as ocfg
         before = norm(copy.deepcopy(ocfg.CONF.bgp.running_config['capability']['remote']))
         second = wire.open_body(asn if asn <= 65535 else 23456, 90, 0x0A000002,
-                                wire.opt_params([wire.cap_mp(2, 1), wire.cap(73, b'\x01\x02'), wire.cap_addpath([(2, 1, 1)])] + ([wire.cap_as4(asn)] if asn > 65535 else []), pk))
+                                wire.opt_params([wire.cap_mp(2, 1), wire.cap(73, b'\x01\x02'), wire.cap_addpath([(2, 1, 1)])] + ([wire.cap_as4(asn)] if flip_as4 else []), pk))
         w.step(('RX', 0, wire.frame(wire.OPEN, second)))
         if w.reported_state() == 'OPENCONFIRM':
             after = norm(copy.deepcopy(ocfg.CONF.bgp.running_config['capability']['remote']))
             alone = {'afi_safi': [(2, 1)], '73': repr(b'\x01\x02'), 'add_path': [{'afi_safi': 'ipv6', 'send/receive': 'receive'}]}
-            if asn > 65535:
+            if flip_as4:
                 alone['four_bytes_as'] = True
+            if w.fsm.protocol is not None and bool(w.fsm.protocol.fourbytesas) != expect_as4:
+                v.append(('C14|open-session|cfg%d|a second OPEN in OpenConfirm changes the AS-number width of the session' % ci,
+                          {'caps': labels, 'cfg': cfg, 'first_open_announced_4_octet': bool(want_caps.get('four_bytes_as')), 'second_open_announced_4_octet': flip_as4,
+                           'four_octet_mode': bool(w.fsm.protocol.fourbytesas)}))
             if after != before and after != norm(alone):
                 v.append(('C14|open-session|cfg%d|a second OPEN in OpenConfirm is merged into the capabilities decoded from the first' % ci,
                           {'caps': labels, 'cfg': cfg, 'before': before, 'after': after}))
